@@ -54,7 +54,9 @@ def handleDeps (ws : List String) : String :=
     | _, _ => "bad-op"
   | _ => "bad-op"
 
-/-- line: `n  ar₀ … ar_{n-1}  f₀ … f_{n-1}  (k_j d … d)  for j = 0 … n-1` — always_run flags, fails flags, and for every
+/-- line: `n  ar₀ … ar_{n-1}  f₀ … f_{n-1}  c₀ … c_{n-1}  (k_j d … d)  for j = 0 … n-1` — always_run flags, fails flags,
+has-a-command flags (`exec`/`skip` list only jobs with commands: whether the empty block of a command-less job is spawned
+is not an observable), and for every
 job its dependency list in the iteration order of the real `_dependencies` set.
 answer: `cycle` | `assert` | `keyerror` | `order=<jobs> exec=<jobs run, in order> skip=<jobs not run> exc=<0|1>` -/
 def handle (line : String) : String :=
@@ -65,7 +67,9 @@ def handle (line : String) : String :=
   | some (n :: rest) =>
     let ar := rest.take n
     let fl := (rest.drop n).take n
-    let ds := groups n (rest.drop (2 * n))
+    let hc := (rest.drop (2 * n)).take n
+    let hasCmd := fun j => hc.getD j 1 == 1
+    let ds := groups n (rest.drop (3 * n))
     let g : Pipe := { n, deps := fun j => ds.getD j [], alwaysRun := fun j => ar.getD j 0 == 1 }
     let fails := fun j => fl.getD j 0 == 1
     match accept g with
@@ -75,7 +79,7 @@ def handle (line : String) : String :=
     | .ok ord =>
       let r := runLocal g fails ord
       let sh := fun (l : List Nat) => joinWith "," (l.map toString)
-      s!"order={sh ord} exec={sh r.1} skip={sh (ord.filter fun j => !r.1.contains j)} exc={if r.2 then 1 else 0}"
+      s!"order={sh ord} exec={sh (r.1.filter hasCmd)} skip={sh (ord.filter fun j => !r.1.contains j && hasCmd j)} exc={if r.2 then 1 else 0}"
   | _ => "bad-op"
 
 def main : IO Unit := mapLines handle
